@@ -2182,7 +2182,8 @@ impl CharacterData for XmlText {
         if self.length() < offset {
             Err(error::DomException::IndexSizeErr)?
         } else {
-            Ok(self.data.borrow().substring(offset..(offset + count)))
+            let end = offset.saturating_add(count).min(self.length());
+            Ok(self.data.borrow().substring(offset..end))
         }
     }
 }
@@ -2198,9 +2199,11 @@ impl CharacterDataMut for XmlText {
     }
 
     fn delete_data(&self, offset: usize, count: usize) -> error::Result<()> {
-        if self.length() < (offset + count) {
+        if self.length() < offset {
             Err(error::DomException::IndexSizeErr)?
         } else {
+            // a count running past the end deletes to the end
+            let count = count.min(self.length() - offset);
             self.data.borrow_mut().delete(offset, count);
             Ok(())
         }
@@ -2337,7 +2340,8 @@ impl CharacterData for XmlComment {
         if self.length() < offset {
             Err(error::DomException::IndexSizeErr)?
         } else {
-            Ok(self.data.borrow().substring(offset..(offset + count)))
+            let end = offset.saturating_add(count).min(self.length());
+            Ok(self.data.borrow().substring(offset..end))
         }
     }
 }
@@ -2353,9 +2357,11 @@ impl CharacterDataMut for XmlComment {
     }
 
     fn delete_data(&self, offset: usize, count: usize) -> error::Result<()> {
-        if self.length() < (offset + count) {
+        if self.length() < offset {
             Err(error::DomException::IndexSizeErr)?
         } else {
+            // a count running past the end deletes to the end
+            let count = count.min(self.length() - offset);
             self.data.borrow_mut().delete(offset, count);
             Ok(())
         }
@@ -2521,7 +2527,8 @@ impl CharacterData for XmlCDataSection {
         if self.length() < offset {
             Err(error::DomException::IndexSizeErr)?
         } else {
-            Ok(self.data.borrow().substring(offset..(offset + count)))
+            let end = offset.saturating_add(count).min(self.length());
+            Ok(self.data.borrow().substring(offset..end))
         }
     }
 }
@@ -2537,9 +2544,11 @@ impl CharacterDataMut for XmlCDataSection {
     }
 
     fn delete_data(&self, offset: usize, count: usize) -> error::Result<()> {
-        if self.length() < (offset + count) {
+        if self.length() < offset {
             Err(error::DomException::IndexSizeErr)?
         } else {
+            // a count running past the end deletes to the end
+            let count = count.min(self.length() - offset);
             self.data.borrow_mut().delete(offset, count);
             Ok(())
         }
